@@ -1,8 +1,8 @@
 //! G2' probes (thorough): depth-2 nestings; unary-unary over the 6-leaf set,
 //! binary shapes over the six (L, M) pairs of `ty::PAIRS`. Requested only,
 //! never called (the G1 diagonal is the one that is called).
-use crate::probe::Table;
-use crate::{add_nocall, six};
+use c04p::probe::Table;
+use c04p::{add_nocall, six};
 use roto::{List, RotoString, Val, Verdict};
 
 type Tr = Val<host::Tr>;
